@@ -281,7 +281,15 @@ func (x *Exec) callResolved(fr *Frame, st *State, fn *ssa.Function, args []Val, 
 		}
 		return x.applyContract(fr, st, fn, fc, args, site)
 	}
-	if fc := x.DB.For(fn); fc != nil && fn != x.Top && fc.HasSpec() && fc.Opts["inline"] == "" {
+	inlineHere := false
+	if x.topContract != nil {
+		for _, n := range strings.Fields(strings.ReplaceAll(x.topContract.Opts["inlinecalls"], ",", " ")) {
+			if n == fn.Name() {
+				inlineHere = true // `opt inlinecalls=f,g`: this function needs the bodies, not the contracts, of f and g
+			}
+		}
+	}
+	if fc := x.DB.For(fn); fc != nil && fn != x.Top && fc.HasSpec() && fc.Opts["inline"] == "" && !inlineHere {
 		return x.applyContract(fr, st, fn, fc, args, site)
 	}
 	if len(fn.Blocks) == 0 || !strings.HasPrefix(pkgPathOf(fn), modPath) && !x.inlineStdlib(fn) {
